@@ -133,3 +133,20 @@ package header
 //@   modifies eh
 //@   callpre header.UnmarshalExtendedHeader: $arg0 == data
 //@   ensures err == nil ==> eh != nil && eh.RawHeader == decRaw(data) && eh.Commit == decCommit(data) && eh.ValidatorSet == decVals(data) && eh.DAH == decDAH(data)
+
+// The gossip message ID. The commit it is computed from is taken by the same two steps the header decoder
+// takes - the whole message through the generated protobuf decoder (which merges repeated fields as every
+// other reader of the message does), then the library converter on the message's commit field - and the
+// ID is that commit's block ID; no hand-rolled walk over the wire format stands in for the decoder.
+//@ extern github.com/celestiaorg/celestia-node/header.unmarshalCommit
+//@   ensures err == nil ==> result0 == decCommit(data)
+//@ func unmarshalCommit
+//@   property C16
+//@   noframe
+//@   only protowire.:
+//@   callpre ExtendedHeader).Unmarshal: $arg0 == in && $arg1 == data
+//@   callpre types.CommitFromProto: $arg0 == in.Commit
+//@ func MsgID
+//@   property C16
+//@   noframe
+//@   callpre BlockID).String: $arg0 == commit.BlockID
